@@ -685,6 +685,9 @@ func CellBytes(data []byte, pos int, typ byte, metadata uint16, isUnSignedInt bo
 
 		// now see if we have a fraction
 		if scale == 0 {
+			if !flag {
+				txt.WriteByte('0')
+			}
 			return txt.Bytes(), l, nil
 		}
 
